@@ -836,6 +836,8 @@ def judge_conn(res, js, line, real, meta, sc):
 # =============================================================================================
 
 def explore(res, tier, seed, model_ok=True):
+    import gencheck   # differential test of the translated code (Generated/Code.lean) against the original Python
+    gencheck.run(res, 'C10', tier, seed, model_ok)
     rng = random.Random(seed)
     quick = tier == 'quick'
     res.rule = ('(1) reply header blocks built from a semantic description: status (101 / other codes / forms int() accepts / broken), Upgrade variants, '
